@@ -30,7 +30,26 @@ func main() {
 	vars := flag.String("vars", "{}", "variables JSON for -op")
 	verbose := flag.Bool("v", false, "print requests / responses")
 	schema := flag.Bool("schema", false, "print the layout")
+	scan := flag.Int("scan", 0, "print the largest operation text of each of the next N cases (size survey) and exit")
 	flag.Parse()
+	if *scan > 0 {
+		for i := *idx; i < *idx+*scan; i++ {
+			c, err := triage.Build(*seed, i, *tier)
+			if err != nil {
+				fmt.Println(i, "BUILD ERROR", err)
+				continue
+			}
+			mx, mk := 0, 0
+			for _, op := range c.Ops {
+				if n := len(op.Doc.String()); n > mx {
+					mx, mk = n, op.K
+				}
+			}
+			c.GW.Close()
+			fmt.Printf("%d k=%d maxlen=%d\n", i, mk, mx)
+		}
+		return
+	}
 
 	c, err := triage.Build(*seed, *idx, *tier)
 	if err != nil {
